@@ -13,11 +13,11 @@ import (
 	"strconv"
 	"strings"
 
+	"github.com/99designs/keyring"
 	"github.com/MichaelMure/git-bug/entities/bug"
 	"github.com/MichaelMure/git-bug/entities/identity"
 	"github.com/MichaelMure/git-bug/entity"
 	"github.com/MichaelMure/git-bug/repository"
-	"github.com/99designs/keyring"
 )
 
 type wPack struct {
@@ -25,7 +25,7 @@ type wPack struct {
 	NOps   int `json:"n"`
 }
 type wAction struct {
-	K     string  `json:"k"` // new | edit | push | pull | remove | reopen
+	K     string  `json:"k"`             // new | edit | push | pull | remove | reopen
 	Del   bool    `json:"del,omitempty"` // reopen: delete the clock files first
 	R     int     `json:"r"`
 	E     int     `json:"e,omitempty"` // ordinal into the replica's sorted local entity list
